@@ -62,6 +62,9 @@ type Run struct {
 	errs []string
 }
 
+// Sigs returns the signatures recorded so far (used by the generic replay).
+func (r *Run) Sigs() map[string]*Violation { return r.viol }
+
 func NewRun(property, level string) *Run {
 	tier := os.Getenv("VERIF_TIER")
 	if tier != "thorough" {
